@@ -59,11 +59,13 @@ type c06DB struct {
 	inflight map[string]int
 	maxIn    map[string]int
 	// stampede control
-	failNext int           // the next n query callbacks fail with c06ErrDB (database trouble)
-	failed   int64         // query callbacks that failed so
-	gate     chan struct{} // non-nil: query callbacks block here
-	entered  chan string   // non-nil: a callback announces itself
-	jitter   bool
+	panicNext int // the next n query callbacks panic
+	panicked  int64
+	failNext  int           // the next n query callbacks fail with c06ErrDB (database trouble)
+	failed    int64         // query callbacks that failed so
+	gate      chan struct{} // non-nil: query callbacks block here
+	entered   chan string   // non-nil: a callback announces itself
+	jitter    bool
 }
 
 func newC06DB() *c06DB {
@@ -102,12 +104,24 @@ var c06ErrDB = errors.New("c06: database unavailable")
 func (d *c06DB) failing() bool {
 	d.mu.Lock()
 	defer d.mu.Unlock()
+	if d.panicNext > 0 {
+		d.panicNext--
+		d.panicked++
+		panic("c06: database query callback panics")
+	}
 	if d.failNext > 0 {
 		d.failNext--
 		d.failed++
 		return true
 	}
 	return false
+}
+
+func (d *c06DB) armPanic(n int) (panickedSoFar int64) {
+	d.mu.Lock()
+	defer d.mu.Unlock()
+	d.panicNext = n
+	return d.panicked
 }
 
 func (d *c06DB) armFail(n int) {
@@ -553,8 +567,7 @@ func (s c06Sys) findByIndex(field, val string) (c06Row, error) {
 		look = s.db.byEmail
 	}
 	keyer := func(primary any) string {
-		id, _ := c06PrimaryID(primary)
-		return s.pk(id)
+		return fmt.Sprintf("%suser:id:%v", s.prefix, primary) // as generated models do
 	}
 	indexQuery := func(conn sqlx.Conn, v any) (any, error) {
 		s.db.enter("idx:" + key)
@@ -739,6 +752,11 @@ var (
 	c06Exp    = []int{1, 7, 10, 30, 90, 3610}
 	c06NFE    = []int{1, 3, 7, 10, 30}
 	c06Cfgs   = []string{"zero", "neg", "unset"}
+	// primary keys of the histories: numeric boundary family (>= 1e6 prints in exponent form as a
+	// float64, > 2^53 does not survive a float64) — the index entry stores them as JSON numbers
+	c06IDs = []int64{1, 1000000, 1<<53 + 1, math.MaxInt64}
+	// primary keys of the stampede rounds
+	c06StampedeIDs = []int64{1, 999999, 1000000, 1234567, 1<<53 + 1, math.MaxInt64, -5, math.MinInt64}
 )
 
 func c06RandTopo(r interface{ Intn(int) int }) c06Topo {
@@ -838,6 +856,15 @@ func (h *c06Hist) absorb(log []c06Cmd, what string, indexOp bool, named []string
 	return false
 }
 
+func c06OtherID(id int64) int64 {
+	for i, v := range c06IDs {
+		if v == id {
+			return c06IDs[(i+1)%len(c06IDs)]
+		}
+	}
+	return c06IDs[0]
+}
+
 // nestedRead performs one read inside an Exec callback. Its result is not judged (the
 // write is still in progress); its redis commands go through the TTL oracle.
 func (h *c06Hist) nestedRead(op c06Op, what string) (bad bool) {
@@ -847,7 +874,7 @@ func (h *c06Hist) nestedRead(op c06Op, what string) (bad bool) {
 	case "findOne":
 		_, _ = s.findOne(op.ID)
 	case "other":
-		_, _ = s.findOne(op.ID%4 + 1)
+		_, _ = s.findOne(c06OtherID(op.ID))
 	case "getCache":
 		var row c06Row
 		_ = s.cc.GetCache(s.pk(op.ID), &row)
@@ -1034,6 +1061,86 @@ func (h *c06Hist) checkGetCache(got c06Row, err error, want c06Row, exists bool,
 	return false
 }
 
+// c06PanicHangSeen: a read hung after a panicking query; do not provoke further 20 s waits.
+var c06PanicHangSeen int32
+
+// dbPanic: the query callback of a read panics once (the caller recovers, as an HTTP/RPC
+// server does). The next read of the same key must work again: it returns the current row.
+// A read that does not return is decided by a 20 s watchdog together with a goroutine dump
+// that shows it parked inside the shared-flight wait.
+func (h *c06Hist) dbPanic(op c06Op) (bad, stop bool) {
+	s := h.sys
+	read := func() (got c06Row, err error, want c06Row, exists bool, keys []string, kind string) {
+		if op.D == 0 {
+			kind = "findOne"
+			got, err = s.findOne(op.ID)
+			want, exists = h.db.byID(op.ID)
+			keys = []string{s.pk(op.ID)}
+			return
+		}
+		kind = "findByName"
+		got, err = s.findByIndex("name", op.Name)
+		want, exists = h.db.byName(op.Name)
+		keys = []string{s.nameKey(op.Name)}
+		if exists {
+			keys = append(keys, s.pk(want.ID))
+		}
+		return
+	}
+	p0 := h.db.armPanic(1)
+	_, panicked := vk.Recover(func() { read() })
+	p1 := h.db.armPanic(0)
+	log, _ := h.env.take()
+	if h.absorb(log, "dbpanic", op.D != 0, nil, false) {
+		return true, false
+	}
+	if !panicked || p1 == p0 {
+		h.counts["dbpanic_not_reached"]++ // served from the cache: no query callback ran
+		if panicked {
+			h.m.Inconclusive("case %d: a read panicked without the harness' callback panicking", h.idx)
+			return false, true
+		}
+		return false, false
+	}
+	h.counts["query_callback_panics"]++
+	// the next read of the same key
+	q0 := h.db.q()
+	var got, want c06Row
+	var err error
+	var exists bool
+	var keys []string
+	var kind string
+	if !vk.Within(20*time.Second, func() { got, err, want, exists, keys, kind = read() }) {
+		atomic.StoreInt32(&c06PanicHangSeen, 1)
+		dump := vk.Stacks()
+		if strings.Contains(dump, "syncx.(*flightGroup).createCall") {
+			h.m.Violate("C06:panic:reads-hang-after-panicking-query", h.desc(), "op #%d %s: after one query callback panicked (recovered by the caller) the next read of the same key did not return within 20 s; a goroutine is parked in the shared-flight wait:\n%s", len(h.ops), vk.JSON(op), c06Excerpt(dump, "syncx.(*flightGroup).createCall"))
+			return true, true
+		}
+		h.m.Inconclusive("case %d: read after a panicking query did not return within 20 s", h.idx)
+		return false, true
+	}
+	log, qi := h.env.take()
+	if h.absorb(log, "dbpanic", op.D != 0, nil, false) {
+		return true, false
+	}
+	h.counts["reads_after_panicking_query"]++
+	return h.checkRead(kind+":after-panic", got, err, want, exists, keys, log, qi, q0), false
+}
+
+// c06Excerpt returns the goroutine block of dump that contains frame.
+func c06Excerpt(dump, frame string) string {
+	for _, b := range strings.Split(dump, "\n\n") {
+		if strings.Contains(b, frame) {
+			if len(b) > 1500 {
+				b = b[:1500]
+			}
+			return b
+		}
+	}
+	return ""
+}
+
 func (e *c06Env) setOnGet(f func()) {
 	e.mu.Lock()
 	e.onGet = f
@@ -1129,9 +1236,9 @@ func (h *c06Hist) run(r interface {
 	s := h.sys
 	nextVer := int64(1)
 	for step := 0; step < nops; step++ {
-		x := r.Intn(127)
+		x := r.Intn(129)
 		op := c06Op{}
-		id := int64(1 + r.Intn(4))
+		id := c06IDs[r.Intn(len(c06IDs))]
 		name := c06Names[r.Intn(len(c06Names))]
 		email := c06Emails[r.Intn(len(c06Emails))]
 		// optional single fault armed for this op
@@ -1194,7 +1301,13 @@ func (h *c06Hist) run(r interface {
 				op.Ctx = "canceled-before"
 			}
 		}
-		if h.isDown && (op.Op == "corrupt" || op.Op == "dbfault" || op.Op == "ctxRead") {
+		if x >= 127 {
+			op = c06Op{Op: "dbpanic", ID: id, Name: name, D: r.Intn(2)}
+			if atomic.LoadInt32(&c06PanicHangSeen) != 0 {
+				op = c06Op{Op: "findOne", ID: id}
+			}
+		}
+		if h.isDown && (op.Op == "corrupt" || op.Op == "dbfault" || op.Op == "ctxRead" || op.Op == "dbpanic") {
 			op = c06Op{Op: "findOne", ID: id}
 		}
 		// make writes applicable to the current database
@@ -1210,13 +1323,13 @@ func (h *c06Hist) run(r interface {
 				}
 				return -1
 			}
-			fi := free(func(i int) bool { _, t := h.db.byID(int64(i + 1)); return t }, 4)
+			fi := free(func(i int) bool { _, t := h.db.byID(c06IDs[i]); return t }, len(c06IDs))
 			fn := free(func(i int) bool { _, t := h.db.byName(c06Names[i]); return t }, len(c06Names))
 			fe := free(func(i int) bool { _, t := h.db.byEmail(c06Emails[i]); return t }, len(c06Emails))
 			if fi < 0 || fn < 0 || fe < 0 {
 				op = c06Op{Op: "findOne", ID: id}
 			} else {
-				op.ID, op.Name, op.Email = int64(fi+1), c06Names[fn], c06Emails[fe]
+				op.ID, op.Name, op.Email = c06IDs[fi], c06Names[fn], c06Emails[fe]
 			}
 		case "update", "updateNoCache", "updateTx":
 			cur, ok := h.db.byID(op.ID)
@@ -1244,7 +1357,7 @@ func (h *c06Hist) run(r interface {
 			}
 		}
 		switch op.Op {
-		case "ff", "down", "up", "dbfault", "readNoCache", "execFail", "delCache0", "ctxRead":
+		case "ff", "down", "up", "dbfault", "readNoCache", "execFail", "delCache0", "ctxRead", "dbpanic":
 			fault = ""
 		}
 		if fault != "" {
@@ -1343,6 +1456,12 @@ func (h *c06Hist) run(r interface {
 				for _, mr := range h.env.mrs {
 					mr.Del(key)
 				}
+			}
+		case "dbpanic":
+			var stop bool
+			bad, stop = h.dbPanic(op)
+			if stop {
+				return false
 			}
 		case "ctxRead":
 			bad = h.ctxRead(op, q0)
@@ -1929,6 +2048,8 @@ func TestVerifC06Stampede(t *testing.T) {
 		gated := r.Intn(2) == 0
 		waves := 1 + r.Intn(3)
 		dbErr := r.Intn(3) == 0 // every database query of the round fails
+		rowID := c06StampedeIDs[r.Intn(len(c06StampedeIDs))]
+		nHandles := 1 + r.Intn(3) // CachedConn handles over the same database and redis
 		if !m.Only(idx) {
 			continue
 		}
@@ -1936,14 +2057,30 @@ func TestVerifC06Stampede(t *testing.T) {
 		if dbErr {
 			db.armFail(1 << 30)
 		}
-		row := c06Row{ID: 1, Name: "ann", Email: "a@x", Ver: int64(idx)}
+		row := c06Row{ID: rowID, Name: "ann", Email: "a@x", Ver: int64(idx)}
 		if exists {
 			db.put(row)
 		}
 		prefix := fmt.Sprintf("c06s%d:", idx)
 		env.begin(prefix, db)
 		s := c06Build(env, tp, db, prefix)
-		desc := fmt.Sprintf("case=%d;%s", idx, vk.JSON(map[string]any{"topo": tp, "via": via, "exists": exists, "gated": gated, "waves": waves, "db_fails": dbErr}))
+		// further handles: a second connection built the same way, and one sharing the first one's cache
+		handles := []c06Sys{s}
+		if nHandles >= 2 {
+			handles = append(handles, c06Build(env, tp, db, prefix))
+		}
+		if nHandles >= 3 {
+			h3 := s
+			h3.cc = NewConnWithCache(c06Conn{db: db}, s.cc.cache)
+			handles = append(handles, h3)
+			if tp.Kind == "nodeconn" { // and the same redis through the config constructor
+				tp1 := tp
+				tp1.Kind = "conf1"
+				handles = append(handles, c06Build(env, tp1, db, prefix))
+			}
+		}
+		m.Count(fmt.Sprintf("rounds_with_%d_handles", len(handles)), 1)
+		desc := fmt.Sprintf("case=%d;%s", idx, vk.JSON(map[string]any{"topo": tp, "via": via, "exists": exists, "gated": gated, "waves": waves, "db_fails": dbErr, "id": rowID, "handles": len(handles)}))
 		m.Current(desc)
 		var gate chan struct{}
 		entered := make(chan string, 1)
@@ -1968,13 +2105,14 @@ func TestVerifC06Stampede(t *testing.T) {
 		launch := func(n int) {
 			for i := 0; i < n; i++ {
 				wg.Add(1)
+				hs := handles[i%len(handles)]
 				go func() {
 					defer wg.Done()
 					var x res
 					if via == "findOne" {
-						x.row, x.err = s.findOne(1)
+						x.row, x.err = hs.findOne(rowID)
 					} else {
-						x.row, x.err = s.findByIndex("name", "ann")
+						x.row, x.err = hs.findByIndex("name", "ann")
 					}
 					out <- x
 				}()
@@ -2071,7 +2209,7 @@ func TestVerifC06Stampede(t *testing.T) {
 			var got c06Row
 			var err error
 			if via == "findOne" {
-				got, err = s.findOne(1)
+				got, err = s.findOne(rowID)
 			} else {
 				got, err = s.findByIndex("name", "ann")
 			}
